@@ -95,64 +95,7 @@ def check(ctx):
                     f"call not found")
         IDPAIRS = idps[0].data["result"]
 
-        # ---------------------------------------------------------- C02.2
-        sel_e, sel_d = _index_sets(err), _index_sets(dids)
-        ok = set(sel_e) == set(sel_d)
-        ctx.ob("C02.2", res.func, ok,
-               f"RPE[{member}]: error values and delta_ids are re-indexed "
-               f"by the same index sets "
-               f"({[fmt(x)[:40] for x in sel_e] or 'none'})" if ok else
-               f"RPE[{member}]: the error values are filtered by "
-               f"{[fmt(x)[:60] for x in sel_e]} but delta_ids by "
-               f"{[fmt(x)[:60] for x in sel_d]} — values and pair end "
-               f"indices no longer line up",
-               key=f"C02.2:{member}:co-indexing")
-        base_d = dids
-        cond_d = None
-        alts = tm.strip_ite(dids)
-        if dids.op == "ite":
-            cond_d = dids.args[0]
-        plain = [a for a in alts if not _index_sets(a)]
-        ok = bool(plain)
-        pd_ = per_element(plain[0]) if plain else None
-        ok = ok and pd_ is not None and not pd_[3] and pd_[2] is IDPAIRS \
-            and pd_[0] is tm.sub(T("elem", IDPAIRS, pd_[1]), const(1))
-        ctx.ob("C02.2", res.func, ok,
-               f"RPE[{member}]: delta_ids = [j for (i, j) in id_pairs], "
-               f"unfiltered, in order" if ok else
-               f"RPE[{member}]: delta_ids is not the list of pair end "
-               f"indices of id_pairs: {fmt(dids)}",
-               key=f"C02.2:{member}:delta-ids", value=fmt(dids))
-        if cond_d is not None:
-            # conditional re-index: the guard may only compare the selector
-            # size with the size of the array it was computed from
-            sel = sel_d[0] if sel_d else None
-            src = tm.method_recv(sel) if sel is not None and \
-                tm.callee_name(sel) == ".nonzero" else (
-                    sel.args[1][0] if sel is not None and sel.args[1]
-                    else None)
-            okc = False
-            if cond_d.op == "cmp" and cond_d.args[0] in ("NotEq", "Lt",
-                                                         "Gt") and \
-                    src is not None:
-                sizes = set()
-                for side in (cond_d.args[1], cond_d.args[2]):
-                    if side.op == "attr" and side.args[1] == "size":
-                        sizes.add(side.args[0])
-                    elif is_call_to(side, "builtins.len") and side.args[1]:
-                        sizes.add(side.args[1][0])
-                okc = src in sizes and any(
-                    any(x is sel for x in s_.walk()) for s_ in sizes
-                    if s_ is not src)
-            ctx.ob("C02.2", res.func, okc,
-                   f"RPE[{member}]: delta_ids is re-indexed exactly when "
-                   f"the filter removed something (selector size vs size of "
-                   f"its source array)" if okc else
-                   f"RPE[{member}]: the re-indexing of delta_ids is guarded "
-                   f"by {fmt(cond_d)}, which does not compare the selector "
-                   f"with the array it was computed from — delta_ids can "
-                   f"stay unfiltered while the values are filtered",
-                   key=f"C02.2:{member}:reindex-guard", guard=fmt(cond_d))
+        coindexing(ctx, res, member, err, dids, IDPAIRS, "C02.2")
 
         # ------------------------------------------------- C02.3/4/6 values
         if family in ("pointdist", "ratio"):
@@ -236,6 +179,69 @@ def check(ctx):
     _rpe_core(ctx, r)
     _run_wiring(ctx, "evo.main_rpe", "rpe", "C02")
     _delta_unit(ctx)
+
+
+def coindexing(ctx, res, member, err, dids, IDPAIRS, rule):
+    """values and pair-end indices stay parallel (shared with C12.4)"""
+    # ---------------------------------------------------------- C02.2
+    sel_e, sel_d = _index_sets(err), _index_sets(dids)
+    ok = set(sel_e) == set(sel_d)
+    ctx.ob(rule, res.func, ok,
+           f"RPE[{member}]: error values and delta_ids are re-indexed "
+           f"by the same index sets "
+           f"({[fmt(x)[:40] for x in sel_e] or 'none'})" if ok else
+           f"RPE[{member}]: the error values are filtered by "
+           f"{[fmt(x)[:60] for x in sel_e]} but delta_ids by "
+           f"{[fmt(x)[:60] for x in sel_d]} — values and pair end "
+           f"indices no longer line up",
+           key=f"{rule}:{member}:co-indexing")
+    base_d = dids
+    cond_d = None
+    alts = tm.strip_ite(dids)
+    if dids.op == "ite":
+        cond_d = dids.args[0]
+    plain = [a for a in alts if not _index_sets(a)]
+    ok = bool(plain)
+    pd_ = per_element(plain[0]) if plain else None
+    ok = ok and pd_ is not None and not pd_[3] and pd_[2] is IDPAIRS \
+        and pd_[0] is tm.sub(T("elem", IDPAIRS, pd_[1]), const(1))
+    ctx.ob(rule, res.func, ok,
+           f"RPE[{member}]: delta_ids = [j for (i, j) in id_pairs], "
+           f"unfiltered, in order" if ok else
+           f"RPE[{member}]: delta_ids is not the list of pair end "
+           f"indices of id_pairs: {fmt(dids)}",
+           key=f"{rule}:{member}:delta-ids", value=fmt(dids))
+    if cond_d is not None:
+        # conditional re-index: the guard may only compare the selector
+        # size with the size of the array it was computed from
+        sel = sel_d[0] if sel_d else None
+        src = tm.method_recv(sel) if sel is not None and \
+            tm.callee_name(sel) == ".nonzero" else (
+                sel.args[1][0] if sel is not None and sel.args[1]
+                else None)
+        okc = False
+        if cond_d.op == "cmp" and cond_d.args[0] in ("NotEq", "Lt",
+                                                     "Gt") and \
+                src is not None:
+            sizes = set()
+            for side in (cond_d.args[1], cond_d.args[2]):
+                if side.op == "attr" and side.args[1] == "size":
+                    sizes.add(side.args[0])
+                elif is_call_to(side, "builtins.len") and side.args[1]:
+                    sizes.add(side.args[1][0])
+            okc = src in sizes and any(
+                any(x is sel for x in s_.walk()) for s_ in sizes
+                if s_ is not src)
+        ctx.ob(rule, res.func, okc,
+               f"RPE[{member}]: delta_ids is re-indexed exactly when "
+               f"the filter removed something (selector size vs size of "
+               f"its source array)" if okc else
+               f"RPE[{member}]: the re-indexing of delta_ids is guarded "
+               f"by {fmt(cond_d)}, which does not compare the selector "
+               f"with the array it was computed from — delta_ids can "
+               f"stay unfiltered while the values are filtered",
+               key=f"{rule}:{member}:reindex-guard", guard=fmt(cond_d))
+
 
 
 def _pair_source(ctx, prog, res):
